@@ -152,7 +152,7 @@ int main()
     outlen = 0; atomlen = 0; candlen = 0; mlen = 0; out[0] = 0;
     YR_COMPILER* comp = NULL; YR_RULES* rules = NULL; YR_SCANNER* sc = NULL;
     VF_ERRS errs = {{0}, 0, 0};
-    const char* ns = NULL; int fast = 0, want_atoms = 0, want_cands = 0, want_info = 0;
+    const char* ns = NULL; int fast = 0, want_atoms = 0, want_cands = 0, want_info = 0, want_actab = 0;
     uint8_t* buf = NULL; size_t buflen = 0; uint8_t* atomq = NULL; size_t atomqlen = 0;
     size_t cuts[64]; int ncuts = -1;
     int failed = 0, i;
@@ -171,6 +171,7 @@ int main()
       if (!strncmp(toks[i], "atoms=", 6)) want_atoms = 1;
       else if (!strncmp(toks[i], "cands=", 6)) want_cands = 1;
       else if (!strncmp(toks[i], "info=", 5)) want_info = 1;
+      else if (!strncmp(toks[i], "actab=", 6)) want_actab = 1;
       else if (!strncmp(toks[i], "fast=", 5)) fast = atoi(toks[i] + 5);
       else if (!strncmp(toks[i], "atomq=", 6)) atomq = unhex(toks[i] + 6, &atomqlen);
       else if (!strncmp(toks[i], "buf=", 4)) buf = unhex(toks[i] + 4, &buflen);
@@ -264,6 +265,27 @@ int main()
               if (STRING_IS_CHAIN_PART(s)) emit("C");
               if (STRING_IS_CHAIN_TAIL(s)) emit("T");
             }
+          }
+        }
+        if (want_actab)
+        {
+          size_t nt = yr_arena_get_current_offset(rules->arena, YR_AC_TRANSITION_TABLE) / sizeof(YR_AC_TRANSITION);
+          size_t np = yr_arena_get_current_offset(rules->arena, YR_AC_STATE_MATCHES_POOL) / sizeof(YR_AC_MATCH);
+          if (nt > 40000) emit(" actab=TOOBIG");
+          else
+          {
+            emit(" act=");
+            for (size_t k = 0; k < nt; k++) emit("%s%x", k ? "," : "", (unsigned) rules->ac_transition_table[k]);
+            emit(" acm=");
+            for (size_t k = 0; k < nt; k++) emit("%s%x", k ? "," : "", (unsigned) rules->ac_match_table[k]);
+            emit(" acp=");
+            for (size_t k = 0; k < np; k++)
+            {
+              YR_AC_MATCH* mm = &rules->ac_match_pool[k];
+              emit("%s%u:%u:%u", k ? "," : "", (unsigned) mm->string->idx, (unsigned) mm->backtrack,
+                   mm->next ? (unsigned) (mm->next - rules->ac_match_pool) + 1 : 0);
+            }
+            if (np == 0) emit("-");
           }
         }
         printf("%s\n", out);
